@@ -52,6 +52,8 @@ package label
 //@   loop 1: invariant rooted-prefix: rooted ==> (n >= 2 && out.w >= 2)
 
 //@ func label.Parse
+//@   ensures label-or-error: result.1 == nil ==> result.0 != nil
+//@   modifies heap
 //@ func label.New
 //@   ensures built: result.1 == nil ==> (result.0 != nil && result.0.Kind == kind && result.0.Project == project && result.0.Name == name)
 //@   ensures name-plain: result.1 == nil ==> (forall i: int :: 0 <= i && i < len(name) ==> (name[i] != 47 && name[i] != 58))
@@ -68,3 +70,6 @@ package label
 //@   requires l != nil
 //@ func (*label.Label).RelativeTo
 //@   requires l != nil
+//@   ensures label-or-error: result.1 == nil ==> result.0 != nil
+//@   ensures keeps-name: result.1 == nil ==> result.0.Name == l.Name
+//@   modifies heap
